@@ -413,7 +413,8 @@ func (t *Typechecker) VisitBinaryExpr(expr *ast.BinaryExpr) ast.VisitResult {
 	case ast.BIN_FIELD_ACCESS:
 		if ident, isIdent := expr.Lhs.(*ast.Ident); isIdent {
 			if !ddptypes.IsStruct(rhs) {
-				// error was already reported by the resolver
+				// the resolver only checks that the left operand is a name
+				t.errExpr(ddperror.TYP_BAD_FIELD_ACCESS, expr.Rhs, "Der VON Operator erwartet eine Struktur als rechten Operanden, nicht %s", rhs)
 				t.latestReturnedType = ddptypes.VoidType{}
 			} else {
 				t.latestReturnedType = t.checkFieldAccess(ident, rhs)
